@@ -43,9 +43,21 @@ Lemma Rn_mono st st' d r : St_le st st' -> Rn st d r -> Rn st' d r.
 Proof. destruct st as [[sc vt] nt], st' as [[sc' vt'] nt']. cbn. intros (E & L & _).
   destruct (index_last d in_names 0 None); [rewrite E; auto|]. destruct (index_last d out_names 0 None); [rewrite E; auto|]. auto. Qed.
 
-(* every renamed value is "" or reserved, when it comes from the rename table *)
+(* rename-table invariant: values are "" or reserved, and no non-empty value is shared by two keys *)
 Definition InvVt (st : rstate) : Prop :=
-  let '(sc, vt, nt) := st in forall d r, lookup String.eqb d vt = Some r -> r = ""%string \/ In r (reserved sc).
+  let '(sc, vt, nt) := st in
+  (forall d r, lookup String.eqb d vt = Some r -> r = ""%string \/ In r (reserved sc)) /\
+  (forall d d' r, lookup String.eqb d vt = Some r -> lookup String.eqb d' vt = Some r -> r <> ""%string -> d = d').
+
+Lemma reserve_free_fresh fuel base : forall r sc r' sc', reserve_free fuel base r sc = inl (r', sc') ->
+  vname sc' = vname sc /\ reserved sc' = reserved sc ++ [r'] /\ ~ In r' (reserved sc).
+Proof. induction fuel as [|f IH]; intros r sc r' sc' H; cbn [reserve_free] in H.
+  - destruct (name_taken sc r) eqn:E; [discriminate|]. inversion H; subst. cbn. split; [reflexivity|]. split; [reflexivity|].
+    unfold name_taken in E. apply orb_false_elim in E. destruct E as [E _]. now apply (mem_nIn String.eqb String.eqb_spec) in E.
+  - destruct (name_taken sc r) eqn:E.
+    + destruct (enum (vcnt sc) base) as [r2 vc2]. destruct (IH _ _ _ _ H) as (E1 & E2 & E3). cbn in *. auto.
+    + inversion H; subst. cbn. split; [reflexivity|]. split; [reflexivity|].
+      unfold name_taken in E. apply orb_false_elim in E. destruct E as [E _]. now apply (mem_nIn String.eqb String.eqb_spec) in E. Qed.
 
 Lemma reserve_free_facts fuel base : forall r sc r' sc', reserve_free fuel base r sc = inl (r', sc') ->
   vname sc' = vname sc /\ (forall x, In x (reserved sc) -> In x (reserved sc')) /\ In r' (reserved sc').
@@ -69,11 +81,26 @@ Proof. unfold rename_val. destruct st as [[sc vt] nt]. intros H Hi. cbn [Rn].
       unfold vlook in Hv. destruct (lookup var_eqb (V u k) (vname sc)); [now inversion Hv|discriminate].
     + destruct (lookup String.eqb name vt) as [r0|] eqn:El.
       * inversion H; subst. split; [apply St_le_refl|]. split; [exact Hi|]. cbn. now rewrite Ei, Ek.
-      * apply bind_ok in H. destruct H as [[r0 sc0] [Hr H]]. inversion H; subst. apply reserve_prefixed_facts in Hr. destruct Hr as (E & I1 & I2). cbn [fst snd].
+      * apply bind_ok in H. destruct H as [[r0 sc0] [Hr H]]. inversion H; subst. cbn [fst snd]. destruct Hi as [H1 H2].
+        assert (Hle : vname sc0 = vname sc /\ (forall x, In x (reserved sc) -> In x (reserved sc0))).
+        { apply reserve_prefixed_facts in Hr. tauto. }
         split; [|split].
-        -- cbn. split; [exact E|]. split; [|exact I1]. intros d x Hd. unfold lookup in *. cbn. destruct (String.eqb_spec d name) as [->|]; [rewrite El in Hd; discriminate|exact Hd].
-        -- cbn. intros d x Hd. unfold lookup in Hd. cbn in Hd. destruct (String.eqb d name); [cbn in Hd; inversion Hd; subst; exact I2|].
-           destruct (Hi d x Hd) as [->|Hin]; auto.
+        -- cbn. split; [apply Hle|]. split; [|apply Hle]. intros d x Hd. unfold lookup in *. cbn. destruct (String.eqb_spec d name) as [->|]; [rewrite El in Hd; discriminate|exact Hd].
+        -- unfold reserve_prefixed in Hr. destruct (String.eqb name "") eqn:En.
+           ++ inversion Hr; subst. split.
+              ** intros d x Hd. unfold lookup in Hd. cbn in Hd. destruct (String.eqb d name); [cbn in Hd; inversion Hd; now left|exact (H1 d x Hd)].
+              ** intros d d' x Hd Hd' Hx. unfold lookup in Hd, Hd'. cbn in Hd, Hd'.
+                 destruct (String.eqb d name); [cbn in Hd; inversion Hd; congruence|]. destruct (String.eqb d' name); [cbn in Hd'; inversion Hd'; congruence|]. eapply H2; eauto.
+           ++ destruct (maybe_enum (vcnt sc) (nm ++ "__" ++ name))%string as [c vc]. apply reserve_free_fresh in Hr. cbn in Hr. destruct Hr as (Ev & Er & Hf). split.
+              ** intros d x Hd. unfold lookup in Hd. cbn in Hd. destruct (String.eqb d name).
+                 --- cbn in Hd. inversion Hd; subst. right. rewrite Er. apply in_or_app. right. now left.
+                 --- destruct (H1 d x Hd) as [->|Hin]; [now left|right; rewrite Er; apply in_or_app; now left].
+              ** intros d d' x Hd Hd' Hx. unfold lookup in Hd, Hd'. cbn in Hd, Hd'.
+                 destruct (String.eqb_spec d name) as [->|Hn1], (String.eqb_spec d' name) as [->|Hn2]; cbn in Hd, Hd'.
+                 --- reflexivity.
+                 --- inversion Hd; subst. exfalso. destruct (H1 d' _ Hd') as [E|Hin]; [congruence|exact (Hf Hin)].
+                 --- inversion Hd'; subst. exfalso. destruct (H1 d _ Hd) as [E|Hin]; [congruence|exact (Hf Hin)].
+                 --- eapply H2; eauto.
         -- cbn. rewrite Ei, Ek. unfold lookup. cbn. now rewrite String.eqb_refl.
 Qed.
 Lemma rename_node_facts st name r st' : rename_node nm st name = inl (r, st') -> InvVt st -> St_le st st' /\ InvVt st'.
@@ -81,7 +108,7 @@ Proof. unfold rename_node. destruct st as [[sc vt] nt]. intros H Hi. destruct (S
   destruct (lookup String.eqb name nt); [inversion H; subst; split; [apply St_le_refl|exact Hi]|].
   apply bind_ok in H. destruct H as [[r0 sc0] [Hr H]]. inversion H; subst. apply reserve_prefixed_facts in Hr. destruct Hr as (E & I1 & _). cbn [fst snd]. split.
   - cbn. auto.
-  - cbn. intros d x Hd. destruct (Hi d x Hd) as [->|Hin]; auto. Qed.
+  - destruct Hi as [H1 H2]. split; [|exact H2]. intros d x Hd. destruct (H1 d x Hd) as [->|Hin]; auto. Qed.
 
 (* a list of names renamed one after the other: every result is the renaming (in the final state) of the name at its position *)
 Lemma mapS_rv_facts : forall l st rs st', mapS rv st l = inl (rs, st') -> InvVt st ->
@@ -210,7 +237,7 @@ Proof.
   apply bind_ok in Hu. destruct Hu as [ids [Hids Hu]]. apply bind_ok in Hu. destruct Hu as [inn [_ Hu]].
   apply bind_ok in Hu. destruct Hu as [outn [_ Hu]]. inversion Hu; subst. cbn [fst snd] in *.
   exists nm, inn, outn, (rb ++ List.concat ids). split; [reflexivity|].
-  assert (I0 : InvVt (s2, [], [])) by (cbn; intros d r Hd; discriminate Hd).
+  assert (I0 : InvVt (s2, [], [])) by (cbn; split; [intros d r Hd; discriminate Hd|intros d d' r Hd; discriminate Hd]).
   destruct (mapS_rv_facts nm (NReal n) (ins (getn p n)) gi go_ _ _ _ _ Hri I0) as (L1 & I1 & _).
   destruct (body_loop_defs nm (NReal n) (ins (getn p n)) gi go_ _ _ _ _ Hrb I1) as (L2 & I2 & C2).
   destruct (mapS_rv_facts nm (NReal n) (ins (getn p n)) gi go_ _ _ _ _ Hro I2) as (L3 & I3 & _).
@@ -220,7 +247,7 @@ Proof.
   intros x Hx. rewrite flat_map_app in Hx. apply in_app_or in Hx. destruct Hx as [Hx|Hx].
   - destruct (Cf x Hx) as [d [Hd Hr]]. cbn [Rn] in Hr. rewrite (Hok d Hd) in Hr.
     destruct (index_last d go_ 0 None) as [k|]; [right; right; exists k; exact Hr|].
-    destruct (I4 d x Hr) as [->|Hin]; [now left|right; now left].
+    destruct (proj1 I4 d x Hr) as [->|Hin]; [now left|right; now left].
   - right. right. apply in_flat_map in Hx. destruct Hx as [r [Hr Hx]]. apply in_concat in Hr. destruct Hr as [l [Hl Hr]].
     (* l is one of the lists produced for the pass-through outputs *)
     assert (HF : Forall2 (fun k l0 => l0 = [] \/ exists a b0, l0 = [MRaw "" "Identity" "" [a] [b0] []] /\ lookup var_eqb (V (NReal n) k) (vname scf) = Some b0)
